@@ -211,8 +211,11 @@ SubstSlots(P, Q, qs, os, i, b, s) ==
 
 SubstList(P, Q, ql, i, b, ol, j, s) ==
   IF i > Len(ql) THEN j > Len(ol)
+  ELSE IF IsDots(ql[i]) /\ ~Has(b, DotsId(ql[i])) THEN
+       \* an elision that occurs on the '+' side only: the statement says nothing about what it stands for
+       \E n \in 0..(Len(ol) - j + 1) : SubstList(P, Q, ql, i + 1, b, ol, j + n, s)
   ELSE IF IsDots(ql[i]) THEN
-       LET run == IF Has(b, DotsId(ql[i])) THEN Get(b, DotsId(ql[i])) ELSE <<>>
+       LET run == Get(b, DotsId(ql[i]))
        IN /\ j + Len(run) - 1 <= Len(ol)
           /\ LooseRun(P, Q, run, ol, j, 1)
           /\ SubstList(P, Q, ql, i + 1, b, ol, j + Len(run), s)
